@@ -4,7 +4,7 @@
      C05  lexical parse, parse_term and fold returned Ok or Err (no panic, no timeout)
      C12  every Ok value is well-formed and could be formatted in all formats and Typst
    The model parser's verdict is compared as DRIFT only (C04 allows lenient acceptance). *)
-EXTENDS Fold, TLCExt
+EXTENDS Fold, LexParser, TLCExt
 
 Obs == ndJsonDeserialize(IOEnv.NV_OBS)
 Prop == IOEnv.NV_PROP
@@ -38,7 +38,14 @@ FoldDrift(o) == LET m == FoldN(J2LN(o.c.v)) r == o.o.fold IN
                 IF m.r # r.r /\ r.r # "panic" THEN {"fold-model-verdict"}
                 ELSE IF m.r = "ok" /\ r.r = "ok" /\ m.v # J2N(r.v) THEN {"fold-model-value"} ELSE {}
 Drift(o) == IF o.c.op = "fold_any" THEN (IF HasF(o.o, "timeout") \/ HasF(o.o, "build") THEN {} ELSE FoldDrift(o))
-            ELSE IF o.c.op # "parse_any" \/ HasF(o.o, "timeout") \/ Prop # "C04" \/ ~Known(Chars(o.o.s)) THEN {}
+            ELSE IF o.c.op # "parse_any" \/ HasF(o.o, "timeout") \/ Prop = "C12" \/ ~Known(Chars(o.o.s)) THEN {}
+            ELSE IF Prop = "C05" THEN
+                 (LET m == LexParse(Chars(o.o.s)) r == o.o.lex IN
+                  IF m.r # r.r /\ r.r # "panic" THEN {"lexical-model-verdict"}
+                  ELSE IF m.r = "ok" /\ r.r = "ok" /\ m.v # J2LN(r.v) THEN {"lexical-model-value"} ELSE {})
+                 \cup (LET m == LexParseTerm(Chars(o.o.s)) r == o.o.lex_term IN
+                       IF m.r # r.r /\ r.r # "panic" THEN {"lexical-term-model-verdict"}
+                       ELSE IF m.r = "ok" /\ r.r = "ok" /\ m.v # J2L(r.v) THEN {"lexical-term-model-value"} ELSE {})
             ELSE LET m == Parse(Chars(o.o.s)) r == o.o.narsese IN
                  IF m.r # r.r /\ r.r # "panic" THEN {"model-verdict"}
                  ELSE IF m.r = "ok" /\ r.r = "ok" /\ m.v # J2N(r.v) THEN {"model-value"} ELSE {}
